@@ -2,8 +2,9 @@
    and of LieTensor.euler (pypose/lietensor/lietensor.py), exactly as coded.
 
    Conventions.
-   * A batch is the list of its items in row-major order together with its shape [B : list nat]
-     (only the rank test of mat2Sim3 / mat2RxSO3 looks at the shape).
+   * A batch is the list of its items in row-major order (the code is item-wise apart from the
+     all-items tests of check=True and of the rank test; the batch shape [B : list nat] only occurs in
+     the [_old] definitions that record the rank test before its repair in /repo 988caf7).
    * [outcome]: the call returns ([Value]) or raises ([Raises]); the ValueError messages are numbered
      in the order of the tests of the code.  An item of a returned batch is [None] when it has
      non-finite entries (division by zero / sqrt or pow of a negative number on the selected branch);
@@ -149,23 +150,41 @@ Definition mdiv3 (M : mat3) (s : option F) : option mat3 :=
   | Some v => if v =? zero then None else Some (mmap3 (fun e => e / v) M)
   | None => None
   end.
-(* s = pow(det(rot), 1/3).unsqueeze(-1); if allclose(s, zeros(shape[:-2])): raise.
-   The two operands have shapes B + (1,) and B. *)
-Definition scale_stage (B : list nat) (Ms : list matin) : outcome (list (option F)) :=
+(* s = pow(det(rot), 1/3).unsqueeze(-1);
+   if s.numel() > 0 and allclose(s, zeros_like(s)): raise          (repaired in 988caf7) *)
+Definition scale_stage (Ms : list matin) : outcome (list (option F)) :=
   let ss := map (fun m => cbrt (mdet3 (in_rot m))) Ms in
-  if negb (broadcastable (B ++ [1%nat]) B) then Raises RuntimeError
-  else if forallb (lift (fun v => close v zero)) ss then Raises (ValueError E_rank)
+  if negb (Nat.eqb (length ss) 0) && forallb (lift (fun v => close v zero)) ss then Raises (ValueError E_rank)
   else Value ss.
 
-Definition mat2Sim3 (check : bool) (B : list nat) (Ms : list matin) : outcome (list (option sim3elt)) :=
-  obind (scale_stage B Ms) (fun ss =>
+Definition mat2Sim3 (check : bool) (Ms : list matin) : outcome (list (option sim3elt)) :=
+  obind (scale_stage Ms) (fun ss =>
   omap (fun qs => map (fun msq => match msq with (m, s, q) =>
                           obindo s (fun s => option_map (fun q : quat => (in_trans m, (q, s))) q) end)
                       (combine (combine Ms ss) qs))
        (mat2SO3 check (map (fun ms => mdiv3 (in_rot (fst ms)) (snd ms)) (combine Ms ss)))).
 
-Definition mat2RxSO3 (check : bool) (B : list nat) (Ms : list matin) : outcome (list (option rxso3elt)) :=
-  obind (scale_stage B Ms) (fun ss =>
+Definition mat2RxSO3 (check : bool) (Ms : list matin) : outcome (list (option rxso3elt)) :=
+  obind (scale_stage Ms) (fun ss =>
+  omap (fun qs => map (fun sq => obindo (fst sq) (fun s => option_map (fun q : quat => (q, s)) (snd sq)))
+                      (combine ss qs))
+       (mat2SO3 check (map (fun ms => mdiv3 (in_rot (fst ms)) (snd ms)) (combine Ms ss)))).
+
+(* ---- history: the rank test before 988caf7, `allclose(s, zeros(shape[:-2]))`, compared operands of
+   shapes B + (1,) and B (B = batch shape) and was vacuously true on an empty batch *)
+Definition scale_stage_old (B : list nat) (Ms : list matin) : outcome (list (option F)) :=
+  let ss := map (fun m => cbrt (mdet3 (in_rot m))) Ms in
+  if negb (broadcastable (B ++ [1%nat]) B) then Raises RuntimeError
+  else if forallb (lift (fun v => close v zero)) ss then Raises (ValueError E_rank)
+  else Value ss.
+Definition mat2Sim3_old (check : bool) (B : list nat) (Ms : list matin) : outcome (list (option sim3elt)) :=
+  obind (scale_stage_old B Ms) (fun ss =>
+  omap (fun qs => map (fun msq => match msq with (m, s, q) =>
+                          obindo s (fun s => option_map (fun q : quat => (in_trans m, (q, s))) q) end)
+                      (combine (combine Ms ss) qs))
+       (mat2SO3 check (map (fun ms => mdiv3 (in_rot (fst ms)) (snd ms)) (combine Ms ss)))).
+Definition mat2RxSO3_old (check : bool) (B : list nat) (Ms : list matin) : outcome (list (option rxso3elt)) :=
+  obind (scale_stage_old B Ms) (fun ss =>
   omap (fun qs => map (fun sq => obindo (fst sq) (fun s => option_map (fun q : quat => (q, s)) (snd sq)))
                       (combine ss qs))
        (mat2SO3 check (map (fun ms => mdiv3 (in_rot (fst ms)) (snd ms)) (combine Ms ss)))).
@@ -230,7 +249,7 @@ Definition lmap {A} (f : A -> list F) (o : outcome (list (option A))) : outcome 
   omap (map (option_map f)) o.
 
 (* group ids as in Model/LieGroup.v: 0 SO3, 1 SE3, 2 RxSO3, 3 Sim3 *)
-Definition mat2X_l (ltype : nat) (check : bool) (B : list nat) (rows cols : nat) (data : list (list F))
+Definition mat2X_l (ltype : nat) (check : bool) (rows cols : nat) (data : list (list F))
   : outcome (list (option (list F))) :=
   if negb (accepted rows cols) then Raises (ValueError E_size)
   else
@@ -238,16 +257,16 @@ Definition mat2X_l (ltype : nat) (check : bool) (B : list nat) (rows cols : nat)
     match ltype with
     | 0%nat => lmap q_l (mat2SO3 check (map (fun m => Some (in_rot m)) Ms))
     | 1%nat => lmap SE3_l (mat2SE3 check Ms)
-    | 2%nat => lmap RxSO3_l (mat2RxSO3 check B Ms)
-    | 3%nat => lmap Sim3_l (mat2Sim3 check B Ms)
+    | 2%nat => lmap RxSO3_l (mat2RxSO3 check Ms)
+    | 3%nat => lmap Sim3_l (mat2Sim3 check Ms)
     | _ => Raises (ValueError E_ltype)
     end.
 (* from_matrix: shape test, then dispatch on ltype (every mat2X repeats the shape test) *)
-Definition from_matrix_l (ltype : nat) (check : bool) (B : list nat) (rows cols : nat) (data : list (list F))
+Definition from_matrix_l (ltype : nat) (check : bool) (rows cols : nat) (data : list (list F))
   : outcome (list (option (list F))) :=
   if negb (accepted rows cols) then Raises (ValueError E_size)
   else if Nat.ltb 3 ltype then Raises (ValueError E_ltype)
-  else mat2X_l ltype check B rows cols data.
+  else mat2X_l ltype check rows cols data.
 
 (* 0 = returns, 1 + k = ValueError number k, 100 = RuntimeError *)
 Definition outcome_code {A} (o : outcome A) : nat :=
@@ -277,12 +296,12 @@ Definition TransQ_sqrt : Trans Q :=
      texp := fun _ => (-7 # 1)%Q; tln := fun _ => (-7 # 1)%Q; tpi := (-7 # 1)%Q |}.
 
 (* case = (index, (ltype, check, rows, cols), (rtol, atol), items, (expected code, expected items)) ;
-   ltype 0 / 1 only (no cube root over Q); batch shape irrelevant for them *)
+   ltype 0 / 1 (no cube root over Q), and the scaled groups on an empty batch *)
 Definition conv_case := (nat * (nat * bool * nat * nat) * (Q * Q) * list (list Q) * (nat * list (list Q)))%type.
 Definition conv_agree (c : conv_case) : bool :=
   match c with
   | (_, (ltype, check, rows, cols), (rtol, atol), items, (code, outs)) =>
-      let o := @from_matrix_l Q NumQ TransQ_sqrt rtol atol ltype check [length items] rows cols items in
+      let o := @from_matrix_l Q NumQ TransQ_sqrt rtol atol ltype check rows cols items in
       Nat.eqb (outcome_code o) code &&
       match o with
       | Value l => Nat.eqb (length l) (length outs) &&
